@@ -118,7 +118,7 @@ func init() {
 		Rule: "seeded entry sets (0..400 entries, keys of length 0..64 text/binary, values nil/\"\"/0/zero struct/populated registered struct/map/slice, expiry none/+1h/-1h, LRU/LFU counters touched) " +
 			"dumped and restored across every pairing ShardedMap<->SyncMap and ShardedMapOf[V]->ShardedMapOf[V] (V=string, struct), relayed through 1..4 instances; Walk/Read of every relay compared with the source; " +
 			"truncated streams must restore a subset without panic; distinct_nontrivial = distinct (pairing, size class, chain length, value-kind set) cells with >=3 entries",
-		Required: []string{"failed_dumps_before", "concurrent_dumps", "roundtrips", "entries.compared", "truncations", "pair.ShardedMap->SyncMap", "pair.SyncMap->ShardedMap", "pair.SyncMap->SyncMap", "pair.ShardedMap->ShardedMap", "pair.Of[string]", "pair.Of[struct]"},
+		Required: []string{"bulk.transfers", "failed_dumps_before", "concurrent_dumps", "roundtrips", "entries.compared", "truncations", "pair.ShardedMap->SyncMap", "pair.SyncMap->ShardedMap", "pair.SyncMap->SyncMap", "pair.ShardedMap->ShardedMap", "pair.Of[string]", "pair.Of[struct]"},
 		Assumptions: []string{"reflect.DeepEqual on the harness' value alphabet is the equality of values (alphabet avoids gob's nil-vs-empty ambiguities)"},
 	})
 }
@@ -141,7 +141,18 @@ func runC13(b *Batch) {
 		})
 		collectGarbage(i)
 	}
+	nb := b.Pick(16, 320) / b.NBatches
+	if nb == 0 {
+		nb = 1
+	}
+	for i := 0; i < nb; i++ {
+		if !b.Skip(n + i) {
+			i := i
+			b.Guard(n+i, "C13", func() { c13Bulk(b, n+i) })
+		}
+	}
 }
+
 
 func sizeClass(n int) string {
 	switch {
